@@ -885,7 +885,7 @@ func main() {
 	w := &world{run: run, rig: rig, empty: rig.PG.Store().Snapshot()}
 	t0 := time.Now()
 	exec := func(sc *Scenario) {
-		if rig.Broken || (!run.Thorough && time.Since(t0) > 150*time.Second) {
+		if rig.Broken || (!run.Thorough && time.Since(t0) > 75*time.Second) {
 			run.Dist["skipped:rig-broken-or-time-budget"]++
 			return
 		}
